@@ -257,7 +257,100 @@ def run(ctx, config='rel-all'):
             check('insert_bytes', 'order: reserve, shift tail, copy bytes, set_len', rs and ev.index(rs[0]) < ev.index(cp[0]) < ev.index(cp[1]) < ev.index(sl[0]))
         else:
             check('insert_bytes', 'shape (two copies, one set_len)', False)
-    ctx.floor('O4', n4[0], 10, 'byte-shift formula clauses')
+    # ---- thin compositions: the bytes handed to the byte vector are exactly the UTF-8 encoding of the argument
+    def own_calls(r, suffix):
+        return [e for e in r.events if len(e.stack) == 1 and e.kind == 'call' and e.callee and e.callee.endswith(suffix)]
+    b = string_method(db, 'insert')
+    if b:
+        I, r = arena.run_fn(ctx, b['id'], config)
+        ib = own_calls(r, '::insert_bytes')
+        enc = own_calls(r, '::encode_utf8')
+        okv = len(ib) == 1 and len(enc) == 1 and enc[0].args[0] == ('param', 3) and ib[0].args[0] == SELF and ib[0].args[1] == ('param', 2) and ib[0].args[2] == enc[0].ret
+        check('insert', 'insert_bytes(idx, ch.encode_utf8(..)) with the caller\'s idx and char', okv, '', b.get('span'))
+    b = string_method(db, 'insert_str')
+    if b:
+        I, r = arena.run_fn(ctx, b['id'], config)
+        ib = own_calls(r, '::insert_bytes')
+        check('insert_str', 'insert_bytes(idx, string.as_bytes()) with the caller\'s idx and string', len(ib) == 1 and ib[0].args[:3] == [SELF, ('param', 2), ('param', 3)], '', b.get('span'))
+    b = string_method(db, 'push')
+    if b:
+        I, r = arena.run_fn(ctx, b['id'], config)
+        lu = own_calls(r, 'len_utf8')
+        pu = own_calls(r, "Vec::<'bump, T>::push")
+        ex = own_calls(r, '::extend_from_slice')
+        enc = own_calls(r, '::encode_utf8')
+        vec_ref = ('addr', ('fld', ('deref', SELF), VEC))
+        ok1 = len(lu) == 1 and lu[0].args[0] == ('param', 2) and len(pu) == 1 and pu[0].args[0] == vec_ref and pu[0].args[1] == ('app', 'trunc', ('param', 2), 'u8') \
+            and any(f[0] == 'eq' and C(1) in f[1:] and lu[0].ret in f[1:] for f in pu[0].state.facts)
+        check('push', 'a char is pushed as the single byte `ch as u8` exactly when ch.len_utf8() == 1', ok1, '', b.get('span'))
+        ok2 = len(ex) == 1 and len(enc) == 1 and enc[0].args[0] == ('param', 2) and ex[0].args[0] == vec_ref and ex[0].args[1] == enc[0].ret \
+            and any(f[0] == 'ne' and C(1) in f[1:] and lu and lu[0].ret in f[1:] for f in ex[0].state.facts)
+        check('push', 'otherwise the bytes of ch.encode_utf8(..) are appended', ok2)
+    b = string_method(db, 'push_str')
+    if b:
+        I, r = arena.run_fn(ctx, b['id'], config)
+        ex = own_calls(r, '::extend_from_slice_copy')
+        check('push_str', 'vec.extend_from_slice_copy(string.as_bytes())', len(ex) == 1 and ex[0].args[0] == ('addr', ('fld', ('deref', SELF), VEC)) and ex[0].args[1] == ('param', 2), '', b.get('span'))
+    b = string_method(db, 'truncate')
+    if b:
+        I, r = arena.run_fn(ctx, b['id'], config)
+        tr = own_calls(r, "Vec::<'bump, T>::truncate")
+        lenl = ('load', LEN_LV, 0)
+        okv = len(tr) == 1 and tr[0].args[1] == ('param', 2) and ('le', ('param', 2), lenl) in tr[0].state.facts and boundary_gated(I, r, tr[0], ('param', 2))
+        check('truncate', 'vec.truncate(new_len) only for new_len <= len on a char boundary (longer requests are a no-op)', bool(okv), '', b.get('span'))
+    b = string_method(db, 'split_off')
+    if b:
+        I, r = arena.run_fn(ctx, b['id'], config)
+        so = own_calls(r, "Vec::<'bump, T>::split_off")
+        fu = own_calls(r, '::from_utf8_unchecked')
+        okv = len(so) == 1 and so[0].args[1] == ('param', 2) and so[0].args[0] == ('addr', ('fld', ('deref', SELF), VEC)) and boundary_gated(I, r, so[0], ('param', 2)) and len(fu) == 1 and fu[0].args[0] == so[0].ret
+        check('split_off', 'other = from_utf8_unchecked(vec.split_off(at)) for a boundary-checked at', bool(okv), '', b.get('span'))
+    # ---- retain: std's compaction loop (idx walks the chars, del_bytes counts removed bytes)
+    b = string_method(db, 'retain')
+    if b:
+        I, r = arena.run_fn(ctx, b['id'], config)
+        L = [v for (bid, h), v in r.loops.items() if bid == b['id']]
+        ev = [e for e in r.events if len(e.stack) == 1]
+        gl = [(l, v) for rec in L for l, v in rec['init'].items() if v[0] == 'agg' and v[1].endswith('SetLenOnDrop')]
+        okg = len(L) == 1 and len(gl) == 1 and field_of(gl[0][1], 'idx') == C(0) and field_of(gl[0][1], 'del_bytes') == C(0) and field_of(gl[0][1], 's') == SELF
+        check('retain', 'guard starts at idx = 0, del_bytes = 0 on self', okg, '', b.get('span'))
+        if okg:
+            rec = L[0]
+            gsym = rec['sym'][gl[0][0]]
+            IDX = ('app', 'proj', gsym, [k for k, _ in gl[0][1][3] if k.endswith('idx')][0]) if False else None
+            fields = {k: ('app', 'proj', gsym, fn_) for k, fn_ in ((kk.split('.')[-1], kk) for kk in [])}
+            # field names as they appear in proj terms
+            pj = {}
+            for t in subterms(tuple(x for st in rec['step'] for x in st['mem'].values() if x is not None)):
+                if isinstance(t, tuple) and t and t[0] == 'app' and t[1] == 'proj' and t[2] == gsym:
+                    pj[t[3].split('.')[-1]] = t
+            IDXT, DELT = pj.get('idx'), pj.get('del_bytes')
+            lu = [e for e in ev if e.kind == 'call' and e.callee.endswith('len_utf8')]
+            uc = [e for e in ev if e.kind == 'call' and (e.extra.get('trait_path') or '').endswith('FnMut::call_mut')]
+            cp = [e for e in ev if e.kind == 'copy']
+            okc = IDXT is not None and len(lu) == 1 and len(uc) == 1 and lu[0].args[0] in subterms(uc[0].args[1])
+            check('retain', 'the predicate sees the char whose width is measured', okc)
+            steps = rec['step']
+            idx_steps = [v for st in steps for k, v in st['mem'].items() if k[0] == 'fld' and k[2].endswith('.idx')]
+            del_steps = [v for st in steps for k, v in st['mem'].items() if k[0] == 'fld' and k[2].endswith('.del_bytes')]
+            w = lu[0].ret if lu else None
+            check('retain', 'idx advances by ch.len_utf8() on every iteration', bool(idx_steps) and w is not None and all(lin(v) == lin(app('add', IDXT, w)) for v in idx_steps))
+            okd = False
+            if del_steps and w is not None and DELT is not None:
+                v = del_steps[0]
+                alts = {x for _, x in v[2]} if v[0] == 'phi' else {v}
+                okd = any(lin(a) == lin(app('add', DELT, w)) for a in alts) and all(lin(a) in (lin(app('add', DELT, w)), lin(DELT)) for a in alts)
+            check('retain', 'del_bytes grows by ch.len_utf8() exactly for removed chars', okd)
+            if len(cp) == 1 and IDXT is not None and DELT is not None and w is not None:
+                gs = 'String.vec'
+                basep = [t for t in subterms(cp[0].args[0]) if isinstance(t, tuple) and t and t[0] == 'load' and 'RawVec.ptr' in repr(t[1])]
+                okm = cp[0].callee == 'copy' and bool(basep) and lin(cp[0].args[0]) == lin(app('add', basep[0], IDXT)) and lin(cp[0].args[1]) in (lin(app('add', basep[0], ('app', 'wsub', IDXT, DELT))), lin(app('sub', app('add', basep[0], IDXT), DELT))) and cp[0].args[2] == w
+                check('retain', 'a kept char moves from BASE + idx to BASE + idx - del_bytes, ch_len bytes', okm, '', cp[0].span)
+                fs = cp[0].state.facts
+                check('retain', 'the move happens exactly for kept chars with del_bytes > 0', ('lt', C(0), DELT) in fs and any(f[0] == 'true' and 'call_mut' in repr(f[1]) or (f[0] == 'true' and '<callable>' in repr(f[1])) for f in fs))
+            else:
+                check('retain', 'one memmove per kept char', False)
+    ctx.floor('O4', n4[0], 25, 'byte-shift formula clauses')
 
 
 def find_string_agg(t, depth=0):
